@@ -1,13 +1,17 @@
 /* C14 harness: sc_shmem_* and the node communicators of the real libsc on the simulated MPI.
    stdin: one run per line:
-     <P> <seed> <adversary> <ppn_attach> <ppn_sim> <noncontig> <flavour> <dtype> <count> <dataseed> <sync>
+     <P> <seed> <adversary> <ppn_attach> <ppn_sim> <noncontig> <flavour> <dtype> <count> <dataseed> <sync> <dup>
+       dup:        1: after attach + set_type the communicator is duplicated with MPI_Comm_dup (the attribute copy
+                   callbacks run) and EVERYTHING below (grid report, arrays, write rounds) happens on the duplicate;
+                   then the duplicate is freed (its inherited node communicators must go with it), the original must
+                   still carry its grid (og=...), and is detached and freed as usual
        sync:       1: all ranks pass an MPI_Barrier before every write round (nobody still reads the array when the
                    next writer starts); 0: the rounds follow each other directly
        ppn_attach: argument of sc_mpi_comm_attach_node_comms (0: MPI_Comm_split_type; simmpi then forms nodes of
                    ppn_sim ranks, contiguous or round robin); -1: do not attach at all
        flavour:    sc_shmem_type_t value (0 basic, 1 prescan, 2 window, 3 window_prescan with SC_ENABLE_MPIWINSHARED)
        dtype:      0 char 1 short 2 ushort 3 int 4 unsigned 5 long 6 ulong 7 longlong
-   Every rank: dup world, attach, set type; reports the grid (rank/size on both attached communicators);
+   Every rank: dup world, attach, set type, [dup again]; reports the grid (rank/size on both attached communicators);
      A = shmem array of P*count items, sc_shmem_allgather of `count` own items;
      B = shmem array of (P+1)*count items, sc_shmem_prefix (SUM);
      C = shmem array like A, sc_shmem_memcpy (C, A);
@@ -30,7 +34,7 @@
 #define RUN_SECONDS 20
 static void on_alarm (int sig) { static const char m[] = "\nHANG\n"; (void) sig; if (write (1, m, sizeof m - 1) < 0) { } _exit (3); }
 
-typedef struct { int ppn_attach, flavour, dtype, count, sync; unsigned dseed; char **out; } arg_t;
+typedef struct { int ppn_attach, flavour, dtype, count, sync, dup; unsigned dseed; char **out; } arg_t;
 
 static unsigned mix (unsigned a, unsigned b, unsigned c)
 {
@@ -81,14 +85,21 @@ static void rank_main (int rank, int size, void *varg)
   arg_t *a = (arg_t *) varg;
   const int ts = tsize[a->dtype], cnt = a->count;
   const size_t nA = (size_t) size * cnt * ts, nB = (size_t) (size + 1) * cnt * ts;
-  sc_MPI_Comm comm, intra = sc_MPI_COMM_NULL, inter = sc_MPI_COMM_NULL;
+  sc_MPI_Comm comm, ocomm, intra = sc_MPI_COMM_NULL, inter = sc_MPI_COMM_NULL;
   int ir = -1, is = -1, er = -1, es = -1, w[2], mpiret, node;
   char *mine = SC_ALLOC (char, (size_t) cnt * ts + 1);
-  char *o = (char *) malloc (2 * (2 * nA + nB + 2 * nA) + 256), *q = o;
+  char *o = (char *) malloc (2 * (2 * nA + nB + 2 * nA) + 384), *q = o;
 
   mpiret = sc_MPI_Comm_dup (sc_MPI_COMM_WORLD, &comm); SC_CHECK_MPI (mpiret);
   if (a->ppn_attach >= 0) sc_mpi_comm_attach_node_comms (comm, a->ppn_attach);
   sc_shmem_set_type (comm, (sc_shmem_type_t) a->flavour);
+  ocomm = comm;
+  if (a->dup) {
+    /* from here on `comm` is the duplicate; it inherits the flavour and the node communicators through the
+       attribute copy callbacks */
+    simmpi_trace_note ("dup");
+    mpiret = sc_MPI_Comm_dup (ocomm, &comm); SC_CHECK_MPI (mpiret);
+  }
   sc_mpi_comm_get_node_comms (comm, &intra, &inter);
   if (intra != sc_MPI_COMM_NULL) { sc_MPI_Comm_rank (intra, &ir); sc_MPI_Comm_size (intra, &is); }
   if (inter != sc_MPI_COMM_NULL) { sc_MPI_Comm_rank (inter, &er); sc_MPI_Comm_size (inter, &es); }
@@ -131,6 +142,18 @@ static void rank_main (int rank, int size, void *varg)
   sc_shmem_free (sc_package_id, B, comm);
   simmpi_trace_note ("fA");
   sc_shmem_free (sc_package_id, A, comm);
+  if (a->dup) {
+    sc_MPI_Comm i3 = sc_MPI_COMM_NULL, e3 = sc_MPI_COMM_NULL;
+    int r3 = -1, s3 = -1, r4 = -1, s4 = -1;
+    simmpi_trace_note ("dfree");
+    mpiret = sc_MPI_Comm_free (&comm); SC_CHECK_MPI (mpiret);
+    comm = ocomm;
+    /* the original still carries its own node communicators */
+    sc_mpi_comm_get_node_comms (comm, &i3, &e3);
+    if (i3 != sc_MPI_COMM_NULL) { sc_MPI_Comm_rank (i3, &r3); sc_MPI_Comm_size (i3, &s3); }
+    if (e3 != sc_MPI_COMM_NULL) { sc_MPI_Comm_rank (e3, &r4); sc_MPI_Comm_size (e3, &s4); }
+    q += sprintf (q, " og=%d/%d/%d/%d", r3, s3, r4, s4);
+  }
   simmpi_trace_note ("end");
   sc_mpi_comm_detach_node_comms (comm);
   {
@@ -155,8 +178,8 @@ int main (void)
   snprintf (tpath, sizeof tpath, "%s/trace.%d.jsonl", getenv ("VERIF_SCRATCH") ? getenv ("VERIF_SCRATCH") : "/var/tmp", (int) getpid ());
   while (fgets (line, sizeof line, stdin)) {
     int P, adv, ppn_sim, noncontig; unsigned long seed; arg_t a;
-    a.sync = 1;
-    if (sscanf (line, "%d %lu %d %d %d %d %d %d %d %u %d", &P, &seed, &adv, &a.ppn_attach, &ppn_sim, &noncontig, &a.flavour, &a.dtype, &a.count, &a.dseed, &a.sync) < 10) continue;
+    a.sync = 1; a.dup = 0;
+    if (sscanf (line, "%d %lu %d %d %d %d %d %d %d %u %d %d", &P, &seed, &adv, &a.ppn_attach, &ppn_sim, &noncontig, &a.flavour, &a.dtype, &a.count, &a.dseed, &a.sync, &a.dup) < 10) continue;
     if (P < 1 || a.dtype < 0 || a.dtype > 7 || a.count < 0 || a.flavour < 0 || a.flavour >= (int) SC_SHMEM_NUM_TYPES) { printf ("RUN %d rc=-1 steps=0\nEND %d mem=0\n", run, run); ++run; continue; }
     a.out = (char **) calloc ((size_t) P, sizeof (char *));
     int mem0 = sc_memory_status (-1) + sc_memory_status (sc_package_id);
